@@ -87,6 +87,7 @@ type t5fn struct {
 	self     bool     // the function being translated (recursive call: uses the fuel variable)
 	variadic bool
 	world    bool // takes the world as its last leading argument and returns (World × result)
+	wlast    bool // [t8] a translated world function: it returns (result, World) — the world is the LAST component
 }
 
 var t5scalars = map[string][2]string{ // canonical type ↦ (Lean type, zero)
@@ -210,6 +211,9 @@ type t5ctx struct {
 	inlining map[string]bool  // helpers being inlined
 	world    string           // non-empty: the Lean variable holding the driver's shared state (Go.Drv.World)
 	hoisted  map[ast.Node]t5v // effectful sub-expressions already evaluated into temporaries
+	t8       *t8state         // [t8] non-nil: the extensions of translate_t8.go are active (for {…}, break, defer, world methods)
+	t8nest   int              // [t8] > 0: inside a nested statement list whose continuation does not lead to the function's end
+	t8loop   *t8loopInfo      // [t8] the innermost `for { … }` loop being translated
 }
 
 func (tr *translator) t5new(rel, pkg, view string) (*t5ctx, error) {
@@ -727,6 +731,12 @@ func (c *t5ctx) bin(e *ast.BinaryExpr, en t5env) (t5v, error) {
 		}
 		return t5v{text: fmt.Sprintf("(%s %s %s)", a.text, op, b.text), typ: "bool"}, nil
 	}
+	if c.t8 != nil && (e.Op == token.EQL || e.Op == token.NEQ) && a.typ == "error" && b.typ == "nil" { // [t8] err == nil / err != nil
+		if e.Op == token.EQL {
+			return t5v{text: "(Option.isNone " + a.text + ")", typ: "bool"}, nil
+		}
+		return t5v{text: "(Option.isSome " + a.text + ")", typ: "bool"}, nil
+	}
 	switch {
 	case a.typ == "untyped" && b.typ == "untyped":
 		return t5v{}, lostf("constant expression of two untyped constants")
@@ -767,6 +777,11 @@ func (c *t5ctx) bin(e *ast.BinaryExpr, en t5env) (t5v, error) {
 			return t5v{}, lostf("arithmetic %s on %s (only int types, assumed not to overflow)", e.Op, t)
 		}
 		return t5v{text: fmt.Sprintf("(%s %s %s)", a.text, e.Op, b.text), typ: t}, nil
+	case token.REM: // [t8] Go's % truncates towards zero (Int.tmod); x % 0 panics in Go (Int.tmod x 0 = x)
+		if !t5isInt(t) || c.t8 == nil {
+			return t5v{}, lostf("%% on %s", t)
+		}
+		return t5v{text: fmt.Sprintf("(Int.tmod %s %s)", a.text, b.text), typ: t}, nil
 	}
 	return t5v{}, lostf("operator %s", e.Op)
 }
@@ -1101,6 +1116,7 @@ func (c *t5ctx) inline(e *ast.CallExpr, en t5env) (t5v, bool, error) {
 		enP = e2
 	}
 	sub := *c
+	sub.t8nest++ // [t8]
 	sub.res = []string{rt}
 	sub.state = nil
 	sub.retWrap = func(s string) string { return s }
@@ -1538,6 +1554,9 @@ func (c *t5ctx) ret(results []ast.Expr, en t5env) (string, error) {
 		}
 		parts = append(parts, v.text)
 	case len(c.res) == 2 && c.res[1] == "error":
+		if len(results) == 1 && c.t8 != nil { // [t8] `return f(…)` of a function with the same two results
+			return c.t8tailCall(results[0], en)
+		}
 		if len(results) != 2 {
 			return "", lostf("return with %d results", len(results))
 		}
@@ -1801,6 +1820,15 @@ func (c *t5ctx) blk(stmts []ast.Stmt, en t5env, k t5k, depth int) (string, error
 
 	case *ast.DeferStmt:
 		return c.deferStmt(s, rest, en, k, depth)
+
+	case *ast.ForStmt: // [t8]
+		return c.t8for(s, rest, en, k, depth)
+
+	case *ast.BranchStmt: // [t8]
+		return c.t8branch(s, rest, en, k, depth)
+
+	case *ast.SwitchStmt: // [t8]
+		return c.t8switch(s, rest, en, k, depth)
 	}
 	return "", lostf("statement %s", c.tr.src(s))
 }
@@ -1901,6 +1929,9 @@ func (c *t5ctx) twoRes(s *ast.AssignStmt, rest []ast.Stmt, en t5env, k t5k, dept
 		return "", lostf("two-result assignment %s", c.tr.src(s))
 	}
 	fn, ok := c.funcs[c.flat(call.Fun, en)]
+	if !ok { // [t8] methods of the external objects of translate_t8.go, resolved by the type of the receiver
+		fn, ok = c.t8fn(call, en)
+	}
 	if !ok || len(fn.results) != 2 || fn.results[1] != "error" || fn.cb >= 0 {
 		return "", lostf("two-result call %s is not in the whitelist", c.tr.src(call.Fun))
 	}
@@ -1923,6 +1954,10 @@ func (c *t5ctx) twoRes(s *ast.AssignStmt, rest []ast.Stmt, en t5env, k t5k, dept
 		r := c.fresh("r")
 		wpre = fmt.Sprintf("%slet %s := %s\n%slet %s : Go.Drv.World := %s.1\n", ind(depth), r, text, ind(depth), c.world, r)
 		text = r + ".2"
+		if fn.wlast { // [t8] a translated function returns (Except …, World)
+			wpre = fmt.Sprintf("%slet %s := %s\n%slet %s : Go.Drv.World := %s.2\n", ind(depth), r, text, ind(depth), c.world, r)
+			text = r + ".1"
+		}
 	}
 	aln, err := leanIdent(a.Name)
 	if err != nil {
@@ -2060,6 +2095,7 @@ func (c *t5ctx) closureCall(fn *t5fn, call *ast.CallExpr, lit *ast.FuncLit, lhs 
 		return "", err
 	}
 	sub := *c
+	sub.t8nest++ // [t8]
 	sub.res = []string{rt}
 	sub.state = []string{captured[0]}
 	sub.stVar = ""
@@ -2091,6 +2127,8 @@ func (c *t5ctx) closureCall(fn *t5fn, call *ast.CallExpr, lit *ast.FuncLit, lhs 
 // nested: translate an inner statement list (branch / loop body) that does not return, as an update of the carried
 // variables; returns the term and the carried variables
 func (c *t5ctx) nestedNoReturn(stmts []ast.Stmt, vars []string, en t5env, depth int) (string, error) {
+	c.t8nest++                    // [t8]
+	defer func() { c.t8nest-- }() // [t8]
 	tuple, _, err := c.carried(vars, en)
 	if err != nil {
 		return "", err
@@ -2123,6 +2161,11 @@ func (c *t5ctx) ifStmt(s *ast.IfStmt, rest []ast.Stmt, en t5env, k t5k, depth in
 			return "", lostf("if with init statement %s", c.tr.src(s.Init))
 		}
 		if len(as.Lhs) == 2 {
+			if c.t8 != nil { // [t8] `if v, err := CALL; err != nil { … return … }`
+				if t, handled, err := c.t8ifTwoRes(s, as, els, rest, en, k, depth); handled {
+					return t, err
+				}
+			}
 			return c.ifCommaOk(s, as, els, rest, en, k, depth)
 		}
 		id, ok := as.Lhs[0].(*ast.Ident)
@@ -2131,6 +2174,10 @@ func (c *t5ctx) ifStmt(s *ast.IfStmt, rest []ast.Stmt, en t5env, k t5k, depth in
 		}
 		if t5idents(rest)[id.Name] {
 			return "", lostf("the if-scoped variable %s is also used after the if", id.Name)
+		}
+		hp, err := c.hoist(as.Rhs[0], en, depth) // [t8] the init expression may be an effectful call (empty without a world)
+		if err != nil {
+			return "", err
 		}
 		v, err := c.ex(as.Rhs[0], en)
 		if err != nil {
@@ -2141,6 +2188,7 @@ func (c *t5ctx) ifStmt(s *ast.IfStmt, rest []ast.Stmt, en t5env, k t5k, depth in
 			return "", err
 		}
 		pre, en = line, en2
+		pre = hp + pre // [t8]
 	}
 	return c.ifCore(pre, s.Cond, s.Body.List, els, rest, en, k, depth)
 }
@@ -2178,6 +2226,9 @@ func (c *t5ctx) ifCore(pre string, condE ast.Expr, a, b, rest []ast.Stmt, en t5e
 			return "", err
 		}
 		cond = v
+	}
+	if c.t8 != nil && (hasReturn(a) || hasReturn(b) || t8hasBreak(a) || t8hasBreak(b)) { // [t8] a branch leaves: scope-aware continuation, break
+		return c.t8ifLeaves(pre, cond.text, a, b, rest, en, k, depth)
 	}
 	if !hasReturn(a) && !hasReturn(b) {
 		vars, err := c.carriedVars(append(append([]ast.Stmt{}, a...), b...), en)
@@ -2503,6 +2554,7 @@ func (c *t5ctx) rangeStmt(s *ast.RangeStmt, rest []ast.Stmt, en t5env, k t5k, de
 	}
 	// the body may return from the function
 	sub := *c
+	sub.t8nest++ // [t8]
 	outerWrap := c.retWrap
 	sub.retWrap = func(s string) string { return "(Go.Loop.ret " + outerWrap(s) + ")" }
 	body, err := sub.blk(s.Body.List, enIn, func(en2 t5env, d int) (string, error) {
@@ -3179,6 +3231,14 @@ func (c *t5ctx) hoist(e ast.Expr, en t5env, depth int) (string, error) {
 			walk(x.X, guarded)
 			walk(x.Index, guarded)
 		case *ast.CallExpr:
+			if c.t8 != nil { // [t8] calls of the world functions / methods of translate_t8.go
+				if handled, err := c.t8hoistCall(x, en, depth, guarded, &pre, walk); handled || err != nil {
+					if err != nil && ferr == nil {
+						ferr = err
+					}
+					return
+				}
+			}
 			if s, ok := x.Fun.(*ast.SelectorExpr); ok {
 				// Y.refs.Add(k)
 				if in, ok := s.X.(*ast.SelectorExpr); ok && s.Sel.Name == "Add" && in.Sel.Name == "refs" && len(x.Args) == 1 {
@@ -3341,6 +3401,9 @@ func (c *t5ctx) ifMapLookup(s *ast.IfStmt, ix *ast.IndexExpr, v, vln string, mor
 
 // deferStmt: `defer X.fileConnMtx.Unlock()`: the mutex is released after the value of every later return is computed
 func (c *t5ctx) deferStmt(s *ast.DeferStmt, rest []ast.Stmt, en t5env, k t5k, depth int) (string, error) {
+	if c.t8 != nil { // [t8] deferred calls of world functions / methods, in a function whose statements are in tail position
+		return c.t8defer(s, rest, en, k, depth)
+	}
 	if c.world == "" || len(s.Call.Args) != 0 || !c.isMutexCall(s.Call, en, "Unlock") {
 		return "", lostf("defer %s", c.tr.src(s.Call))
 	}
@@ -3738,6 +3801,7 @@ func (c *t5ctx) pureLit(lit *ast.FuncLit, want string) (string, error) {
 		return "", err
 	}
 	sub := *c
+	sub.t8nest++ // [t8]
 	sub.res = []string{rt}
 	sub.state = nil
 	sub.stVar = ""
